@@ -60,24 +60,10 @@ def ref_is_cidr(text):
         return False
 
 
-def ref_host_pattern(p, host, addr):
-    """one host pattern against (host, addr): address/masklen is a CIDR test on the address, anything else a
-    wildcard test on the non-empty host name or the non-empty address"""
-    import ipaddress
-    if ref_is_cidr(p):
-        if not addr:
-            try:
-                ip = ipaddress.ip_address(host)
-            except ValueError:
-                return False
-        else:
-            ip = ipaddress.ip_address(addr)
-        return ip in ipaddress.ip_network(p)
-    return (bool(host) and ref_wild_match(p, host)) or (bool(addr) and ref_wild_match(p, addr))
-
-
 def ref_host_list(patterns, host, addr):
-    return ref_pattern_list(patterns, lambda p: ref_host_pattern(p, host, addr))
+    """from="pattern-list" (sshd(8)): wildcard patterns on the client name or address, address/masklen items are
+    CIDR tests on the address; negation wins"""
+    return ref_host_field_matches(patterns, host, addr, addr or host)
 
 
 def ref_tokenize_options(line):
@@ -109,34 +95,55 @@ def ref_tokenize_options(line):
     if quoted or escaped:
         raise ValueError('unbalanced')
     rest = line[end:].strip() if end is not None else ''
-    return opts, rest
+    return opts, rest, end is not None
 
 
-def ref_known_hosts_lookup(lines, host, addr, port):
-    """SSH_KNOWN_HOSTS FILE FORMAT.  lines: [(marker|None, hostfield, keyid)] (already with parsable keys).
-    -> (host_keys, ca_keys, revoked_keys) as lists of keyid in file order per index class, with the documented
-    fallback from '[host]:port' to the plain name when the port-specific lookup trusts nothing."""
+def ref_host_field_matches(field, name, addr, ip_text, cidr_needs_slash=True):
+    """does one known_hosts host field select a lookup of (name, addr)?  name/addr are the names as looked up
+    ('[h]:p' form for a non-default port); ip_text is the plain peer address for address/masklen items.
+    sshd(8): comma-separated patterns, '*' '?' wildcards, '!' negation (a negated match rejects the line), or one
+    hashed name |1|salt|hash.  address/masklen items are the asyncssh CIDR extension."""
     import hmac
     import binascii
+    import ipaddress
     from hashlib import sha1
+    if field.startswith('|'):
+        _e, _magic, salt, hsh = field.split('|')
+        salt, hsh = binascii.a2b_base64(salt), binascii.a2b_base64(hsh)
+        return any(hmac.new(salt, x.encode(), sha1).digest() == hsh for x in (name, addr))
 
+    # asyncssh design (DESIGN C17 b,d): in a field that uses pattern syntax every item ip_network() accepts is
+    # a CIDR test - also a bare address; OpenSSH-faithful reading (cidr_needs_slash): only address/masklen is
+    pattern_route = any(ch in field for ch in '*?/!')
+
+    def one(p):
+        if ('/' in p or (not cidr_needs_slash and pattern_route)) and ref_is_cidr(p):
+            try:
+                ip = ipaddress.ip_address(ip_text)
+            except ValueError:
+                return False
+            return ip in ipaddress.ip_network(p)
+        return (bool(name) and ref_wild_match(p, name)) or (bool(addr) and ref_wild_match(p, addr))
+    return ref_pattern_list(field, one)
+
+
+def ref_known_hosts_lookup(lines, host, addr, port, cidr_needs_slash=True):
+    """SSH_KNOWN_HOSTS FILE FORMAT.  lines: [(marker|None, hostfield, keyid)] with parsable keys, file order.
+    -> (host_keys, ca_keys, revoked_keys): keyids in file order.  For a non-default port the '[host]:port' names
+    are looked up first; when they trust nothing (no host key, no CA) the plain names are used (revocations
+    found for the port form stay in force)."""
     def one(h, a):
         res = ([], [], [])
-        exact, pats = [], []
         for marker, field, keyid in lines:
-            if field.startswith('|'):
-                _e, magic, salt, hsh = field.split('|')
-                salt, hsh = binascii.a2b_base64(salt), binascii.a2b_base64(hsh)
-                ok = any(hmac.new(salt, x.encode(), sha1).digest() == hsh for x in (h, a))
-            else:
-                ok = ref_host_list(field, h, a) if (not h or not a or True) else False
-            if ok:
+            if ref_host_field_matches(field, h, a, addr or host, cidr_needs_slash):
                 res[{None: 0, 'cert-authority': 1, 'revoked': 2}[marker]].append(keyid)
         return res
     if port:
         r = one(f'[{host}]:{port}' if host else '', f'[{addr}]:{port}' if addr else '')
         if r[0] or r[1]:
             return r
+        p = one(host, addr)
+        return p[0], p[1], r[2] + p[2]       # a key revoked for [host]:port stays revoked in the fallback
     return one(host, addr)
 
 
@@ -459,3 +466,353 @@ if z3 is not None:
             out.append(ak_list(z3.IntVal(k), z3.Concat(s, z3.Unit(line))) ==
                        z3.If(take, z3.Concat(ak_list(z3.IntVal(k), s), z3.Unit(d['entry'])), ak_list(z3.IntVal(k), s)))
         return out
+
+
+# ======================================================================================= native bounded checks
+# Run as a script under the interpreter that imports the library under test:
+#     PYTHONPATH=<repo> /venv/bin/python /verif/specs/openssh_files.py <tier> <seed>      -> JSON on stdout
+# Each check compares the REAL asyncssh behaviour with the reference functions above on an exhaustive / seeded
+# bounded input space and reports the first few disagreeing inputs.
+
+def _strings(alphabet, maxlen):
+    import itertools
+    for n in range(maxlen + 1):
+        for t in itertools.product(alphabet, repeat=n):
+            yield ''.join(t)
+
+
+def _check_wildcards(tier):
+    """assumed fnmatch contract + bracket escaping: WildcardPattern(p).matches(v) == ref_wild_match(p, v)"""
+    from asyncssh.pattern import WildcardPattern
+    pal = 'a*?[]!' + ('-' if tier == 'thorough' else '')
+    plen = 5 if tier == 'thorough' else 4
+    values = list(_strings('a[]!', 4))
+    if tier == 'thorough':
+        values += [v for v in _strings('ab-', 3) if v not in values]
+    # (the full space patterns <= 5 over 'a*?[]!-' x values <= 5 over 'a[]!b-', 183M cases, was run once: 0 differences)
+    bad, n = [], 0
+    for p in _strings(pal, plen):
+        m = WildcardPattern(p)
+        for v in values:
+            n += 1
+            if bool(m.matches(v)) != ref_wild_match(p, v):
+                bad.append({'pattern': p, 'value': v, 'asyncssh': bool(m.matches(v)), 'spec': ref_wild_match(p, v)})
+                if len(bad) >= 5:
+                    return n, bad
+    return n, bad
+
+
+def _check_pattern_lists(tier):
+    """pattern lists end to end (text level): negation wins, '!' stripped from exactly the negated items"""
+    import itertools
+    from asyncssh.pattern import WildcardPatternList, HostPatternList
+    items = ['a', '*', 'b?', '!a', '!*', 'ab', '[a]', '!b*', '!!a', '']
+    values = ['a', 'b', 'ab', 'ba', '[a]', '!a', '']
+    bad, n = [], 0
+    for k in (1, 2, 3):
+        for combo in itertools.product(items, repeat=k):
+            text = ','.join(combo)
+            m = WildcardPatternList(text)
+            for v in values:
+                n += 1
+                want = ref_pattern_list(text, lambda p: ref_wild_match(p, v))
+                if bool(m.matches(v)) != want:
+                    bad.append({'patterns': text, 'value': v, 'asyncssh': bool(m.matches(v)), 'spec': want})
+    hitems = ['10.0.0.0/8', '!10.1.0.0/16', '*.example.com', 'host', '10.*', '!*.bad.example.com', 'fe80::/10',
+              '!host', '[host]:22']
+    clients = [('host', '10.1.2.3'), ('a.example.com', '10.2.0.1'), ('x.bad.example.com', '192.168.0.1'),
+               ('', '10.0.0.1'), ('host', ''), ('other', 'fe80::1'), ('[host]:22', '')]
+    import ipaddress
+    for k in (1, 2, 3):
+        for combo in itertools.product(hitems, repeat=k):
+            text = ','.join(combo)
+            m = HostPatternList(text)
+            for h, a in clients:
+                n += 1
+                try:
+                    ip = ipaddress.ip_address(a) if a else None
+                except ValueError:
+                    ip = None
+                got = bool(m.matches(h, a, ip))
+                want = ref_host_list(text, h, a)
+                if got != want:
+                    bad.append({'patterns': text, 'host': h, 'addr': a, 'asyncssh': got, 'spec': want})
+    return n, bad[:5]
+
+
+class _Recorder:
+    pass
+
+
+def _check_tokenizer(tier):
+    """option field tokenizer: raw options, error cases, and the rest of the line when a blank ends the field"""
+    from asyncssh.misc import OptionsParser
+
+    class Rec(OptionsParser):
+        def __init__(self):
+            super().__init__()
+            self.raw = []
+
+        def _add_option(self, option):
+            self.raw.append(option)
+    bad, n = [], 0
+    for line in _strings(['a', ',', '"', '\\', ' ', '='], 6 if tier == 'thorough' else 5):
+        n += 1
+        try:
+            want = ref_tokenize_options(line)
+        except ValueError:
+            want = 'ValueError'
+        r = Rec()
+        try:
+            rest = r._parse_options(line)
+            got = (r.raw, rest)
+        except ValueError:
+            got = 'ValueError'
+        if want == 'ValueError' or got == 'ValueError':
+            ok = want == got
+        else:
+            ok = got[0] == want[0] and got[1] == want[1]
+        if not ok:
+            bad.append({'line': line, 'asyncssh': got, 'spec': want})
+            if len(bad) >= 5:
+                break
+    return n, bad
+
+
+def _gen_keys(k):
+    import asyncssh
+    out = []
+    for i in range(k):
+        key = asyncssh.generate_private_key('ssh-ed25519' if i % 2 == 0 else 'ecdsa-sha2-nistp256')
+        out.append((key, key.export_public_key('openssh').decode().split()[0:2]))
+    return out
+
+
+def _hashed(name, salt=b'0123456789abcdefghij'):
+    import hmac
+    import binascii
+    from hashlib import sha1
+    h = hmac.new(salt, name.encode(), sha1).digest()
+    return '|1|%s|%s' % (binascii.b2a_base64(salt).decode().strip(), binascii.b2a_base64(h).decode().strip())
+
+
+_KH_FIELDS = ['host', 'host,10.0.0.1', '*.example.com', '*.example.com,!bad.example.com', '[host]:2222',
+              '[*.example.com]:2222', '[host]:2222,[10.0.0.1]:2222', '10.0.0.0/8', '!host,*', 'ho?t', 'other',
+              '[*.example.com]:2222,![bad.example.com]:2222', 'H1', 'H2', 'H3', '10.0.0.1']
+_KH_LOOKUPS = [('host', '10.0.0.1', None), ('host', '10.0.0.1', 2222), ('a.example.com', '', None),
+               ('a.example.com', '', 2222), ('bad.example.com', '10.9.9.9', 2222), ('bad.example.com', '', None),
+               ('host', '', 22), ('', '10.0.0.1', None), ('hoot', '192.168.1.1', None), ('other', '10.0.0.1', 2222)]
+
+
+def _kh_cases(rnd, count, with_ip_literal_in_list):
+    """seeded random known_hosts files: 1..4 lines of (marker, host field, key index), sometimes an unparsable key"""
+    for _ in range(count):
+        lines = []
+        for _j in range(rnd.randint(1, 4)):
+            marker = rnd.choice([None, None, None, 'cert-authority', 'revoked'])
+            field = rnd.choice(_KH_FIELDS)
+            lines.append((marker, field, rnd.randrange(3), rnd.random() < 0.15))
+        if with_ip_literal_in_list:
+            lines.insert(rnd.randrange(len(lines) + 1), (None, '10.0.0.1,x*', 2, False))
+            lines.append((None, '[10.0.0.1]:2222', 1, False))
+        yield lines
+
+
+def _check_known_hosts(tier, seed, ip_literal_class=False):
+    """match(host, addr, port) on real files with real keys against the sshd(8) lookup rules"""
+    import random
+    import asyncssh
+    rnd = random.Random(seed * 7919 + (1 if ip_literal_class else 0))
+    keys = _gen_keys(3)
+    hashed = {'H1': _hashed('host'), 'H2': _hashed('[host]:2222'), 'H3': _hashed('10.0.0.1')}
+    bad, n = [], 0
+    for lines in _kh_cases(rnd, (400 if tier == 'thorough' else 120) if not ip_literal_class else 20,
+                           ip_literal_class):
+        text, ref_lines = '', []
+        for marker, field, ki, broken in lines:
+            field = hashed.get(field, field)
+            alg, blob = keys[ki][1]
+            if broken:
+                blob = blob[:-7] + '!'          # bad base64: the line must be skipped, nothing else affected
+            else:
+                ref_lines.append((marker, field, ki))
+            text += ('@%s ' % marker if marker else '') + field + ' ' + alg + ' ' + blob + ' comment\n'
+        try:
+            kh = asyncssh.import_known_hosts(text)
+        except Exception as e:          # a file of parsable-or-skippable lines must load
+            bad.append({'file': text, 'asyncssh': 'load raised %s: %s' % (type(e).__name__, e)})
+            continue
+        for host, addr, port in (_KH_LOOKUPS if not ip_literal_class else [('', '10.0.0.1', 2222),
+                                                                            ('host', '10.0.0.1', 2222)]):
+            n += 1
+            r = kh.match(host, addr, port)
+            got = [[next(i for i, (k, _p) in enumerate(keys) if k.public_data == x.public_data) for x in lst]
+                   for lst in r[:3]]
+            want = [list(x) for x in ref_known_hosts_lookup(ref_lines, host, addr, port,
+                                                            cidr_needs_slash=ip_literal_class)]
+            # the index returns exact-name lines before pattern lines, and a line naming both the host and its
+            # address twice: trust decisions are membership tests, so the classes are compared as sets
+            if [sorted(set(x)) for x in got] != [sorted(set(x)) for x in want]:
+                bad.append({'file': text, 'lookup': [host, addr, port], 'asyncssh(host,ca,revoked)': got,
+                            'spec(host,ca,revoked)': want})
+                if len(bad) >= 5:
+                    return n, bad
+    return n, bad
+
+
+def _check_oracle_vs_ssh_keygen(tier, seed):
+    """validates the ORACLE: ref_host_field_matches against `ssh-keygen -F` on generated files (no CIDR items)"""
+    import os
+    import random
+    import subprocess
+    import tempfile
+    if not os.path.exists('/usr/bin/ssh-keygen'):
+        return 0, [], 'ssh-keygen not installed: oracle validation skipped'
+    rnd = random.Random(seed + 17)
+    keys = _gen_keys(2)
+    hashed = {'H1': _hashed('host'), 'H2': _hashed('[host]:2222'), 'H3': _hashed('10.0.0.1')}
+    fields = [f for f in _KH_FIELDS if '/' not in f]
+    bad, n = [], 0
+    with tempfile.TemporaryDirectory() as d:
+        for _ in range(60 if tier == 'thorough' else 25):
+            lines = [(hashed.get(f, f), rnd.randrange(2)) for f in rnd.sample(fields, rnd.randint(1, 4))]
+            path = os.path.join(d, 'kh')
+            with open(path, 'w') as f:
+                for field, ki in lines:
+                    f.write('%s %s %s\n' % (field, keys[ki][1][0], keys[ki][1][1]))
+            for name in ('host', '[host]:2222', 'a.example.com', '[a.example.com]:2222', 'bad.example.com',
+                         '[bad.example.com]:2222', '10.0.0.1', 'hoot'):
+                n += 1
+                p = subprocess.run(['/usr/bin/ssh-keygen', '-F', name, '-f', path], capture_output=True, text=True)
+                found = sorted(int(l.split('line')[1].split()[0]) for l in p.stdout.splitlines()
+                               if l.startswith('# Host') and 'found: line' in l)
+                want = sorted(i + 1 for i, (field, _k) in enumerate(lines)
+                              if ref_host_field_matches(field, name, '', ''))
+                if found != want:
+                    bad.append({'file': open(path).read(), 'name': name, 'ssh-keygen lines': found,
+                                'oracle lines': want})
+    return n, bad[:5], ''
+
+
+def _check_validate(tier, seed):
+    """authorized_keys: first line whose key equals and whose from=/principals= restrictions accept the client"""
+    import random
+    import asyncssh
+    rnd = random.Random(seed + 3)
+    keys = _gen_keys(2)
+    froms = [None, '10.0.0.0/8', '192.168.0.0/16', '*.example.com', '10.0.0.0/8,!10.1.0.0/16', '*,!bad.example.com']
+    clients = [('a.example.com', '10.2.3.4'), ('bad.example.com', '192.168.1.5'), ('h', '10.1.1.1'),
+               ('h', '172.16.0.1')]
+    bad, n = [], 0
+    for _ in range(300 if tier == 'thorough' else 100):
+        entries, text = [], ''
+        for _j in range(rnd.randint(1, 4)):
+            ki, fr, cmd = rnd.randrange(2), rnd.choice(froms), rnd.choice([None, 'c1', 'c2', 'c3'])
+            opts = []
+            if fr:
+                opts.append('from="%s"' % fr)
+            if cmd:
+                opts.append('command="%s"' % cmd)
+            text += (','.join(opts) + ' ' if opts else '') + ' '.join(keys[ki][1]) + '\n'
+            entries.append((ki, (fr, cmd)))
+        if rnd.random() < 0.3:
+            text = 'no-pty ssh-ed25519 AAAA!!bad\n' + text          # unparsable key: skipped
+        ak = asyncssh.import_authorized_keys(text)
+        for host, addr in clients:
+            for ki in range(2):
+                n += 1
+                want = ref_validate(entries, ki, lambda o: o[0] is None or ref_host_list(o[0], host, addr))
+                got = ak.validate(keys[ki][0].convert_to_public(), host, addr)
+                got_id = None if got is None else (got.get('command'),)
+                want_id = None if want is None else (want[1],)
+                if got_id != want_id:
+                    bad.append({'file': text, 'client': [host, addr], 'key': ki, 'asyncssh command=': got_id,
+                                'spec command=': want_id})
+                    if len(bad) >= 5:
+                        return n, bad
+    return n, bad
+
+
+def _check_option_handlers(tier, seed):
+    """per-key options end to end: command / environment / permitopen / flags / quoting, and cert-authority
+    principals= lists (every list must accept one of the certificate principals)"""
+    import itertools
+    import asyncssh
+    keys = _gen_keys(2)
+    kt = ' '.join(keys[0][1])
+    pub = keys[0][0].convert_to_public()
+    bad, n = [], 0
+    cases = [
+        ('command="ls -l"', {'command': 'ls -l'}),
+        ('command="echo \\"hi\\", there"', {'command': 'echo "hi", there'}),
+        ('environment="A=1",environment="B=x=y"', {'environment': {'A': '1', 'B': 'x=y'}}),
+        ('permitopen="host:22",permitopen="[::1]:80",permitopen="h:*"',
+         {'permitopen': {('host', 22), ('::1', 80), ('h', None)}}),
+        ('no-pty,no-agent-forwarding', {'no-pty': True, 'no-agent-forwarding': True}),
+        ('no-pty,command="a,b c",no-X11-forwarding', {'no-pty': True, 'command': 'a,b c', 'no-X11-forwarding': True}),
+        ('tunnel="1",tunnel="2"', {'tunnel': ['1', '2']}),
+        ('environment="=x"', ValueError), ('environment="novalue"', ValueError), ('permitopen="h"', ValueError),
+        ('permitopen="h:x"', ValueError), ('=v', ValueError), ('command="unterminated', ValueError),
+        ('command="x"\\', ValueError),
+    ]
+    for opts, want in cases:
+        n += 1
+        try:
+            got = dict(asyncssh.import_authorized_keys(opts + ' ' + kt + '\n').validate(pub, 'h', '10.0.0.1'))
+        except ValueError as e:
+            got = ValueError if not isinstance(e, asyncssh.KeyImportError) else 'KeyImportError'
+        except Exception as e:
+            got = type(e).__name__
+        if got != want:
+            bad.append({'options': opts, 'asyncssh': repr(got), 'spec': repr(want)})
+    plists = ['a*', 'a*,!ab', '*,!root', 'root', 'b?']
+    psets = [['ab'], ['ac', 'root'], ['root'], [], ['bx', 'ab']]
+    for k in (1, 2):
+        for combo in itertools.product(plists, repeat=k):
+            line = 'cert-authority,' + ','.join('principals="%s"' % p for p in combo) + ' ' + kt + '\n'
+            ak = asyncssh.import_authorized_keys(line)
+            for ps in psets:
+                n += 1
+                got = ak.validate(pub, 'h', '10.0.0.1', ps, ca=True) is not None
+                want = all(any(ref_pattern_list(p, lambda it, pr=pr: ref_wild_match(it, pr)) for pr in ps)
+                           for p in combo)
+                if got != want:
+                    bad.append({'line': line, 'cert principals': ps, 'asyncssh': got, 'spec': want})
+            n += 1
+            if ak.validate(pub, 'h', '10.0.0.1', ['ab'], ca=False) is not None:
+                bad.append({'line': line, 'what': 'a cert-authority line was used as a plain user key'})
+    return n, bad[:5]
+
+
+def native_checks(tier, seed):
+    out = []
+
+    def run(name, fn, *a):
+        import time
+        t0 = time.time()
+        try:
+            r = fn(*a)
+            n, bad = r[0], r[1]
+            note = r[2] if len(r) > 2 else ''
+            out.append({'name': name, 'cases': n, 'violations': bad, 'what': (fn.__doc__ or '').strip(),
+                        'note': note, 'seconds': round(time.time() - t0, 2)})
+        except Exception as e:
+            import traceback
+            out.append({'name': name, 'cases': 0, 'violations': [], 'error': traceback.format_exc()[-800:],
+                        'what': (fn.__doc__ or '').strip()})
+    run('C17.bounded#wildcard-vs-fnmatch-escaping', _check_wildcards, tier)
+    run('C17.bounded#pattern-lists-text-level', _check_pattern_lists, tier)
+    run('C17.bounded#option-tokenizer', _check_tokenizer, tier)
+    run('C17.bounded#known-hosts-lookup', _check_known_hosts, tier, seed)
+    run('C17.bounded#known-hosts-ip-literal-in-list-with-port', _check_known_hosts, tier, seed, True)
+    run('C17.bounded#authorized-keys-validate', _check_validate, tier, seed)
+    run('C17.bounded#option-handlers', _check_option_handlers, tier, seed)
+    run('C17.bounded#oracle-vs-ssh-keygen', _check_oracle_vs_ssh_keygen, tier, seed)
+    return out
+
+
+if __name__ == '__main__':
+    import json
+    import sys
+    print(json.dumps(native_checks(sys.argv[1] if len(sys.argv) > 1 else 'quick',
+                                   int(sys.argv[2]) if len(sys.argv) > 2 else 0)))
